@@ -45,6 +45,10 @@ CLAIMED = {
             "Theorems C04_uint, C04_sint, C04_signed_range, C04_lsb_uint, C04_lsb_sint, C04_float_glue, C04_half_exhaustive (bound 2^16 stated). partial: the IEEE meaning of binary32/64 and MIL-1750A patterns is Flocq's normalisation of the decoded fields, tied to struct.unpack by the correspondence (class boundaries, NaNs, subnormals, random) rather than by a general theorem.",
             "Trusted: Coq kernel+VM; Flocq 4.1 (its definitions depend on the standard library's real-number axioms, listed by Print Assumptions); struct.unpack.",
             "DESIGN.md section 4 C04"),
+    "C08": ("Coq proof (selection order context > default > raw; calibrated results are floats keeping the raw value; exact integer polynomials; step-spline segment choice, closed upper end, extrapolation rule; enumeration/boolean on raw only) + kernel-evaluated, bit-exact correspondence with calibrators and parse_value (Flocq binary64, CPython 3.12 compensated sum modelled)",
+            "Twelve theorems (Props/C08.v). partial: first-order spline values and float polynomials are tied to the code by bit-exact correspondence (every knot, both end points, midpoints, outside), not by a closed-form real-valued theorem; float ** n (n >= 2) is libm and excluded.",
+            "Trusted: Coq kernel+VM; Flocq 4.1 (+ standard-library real axioms); CPython float arithmetic and the built-in sum() algorithm as modelled. Genuine defect F5 found by this check and repaired by a fix: commit.",
+            "DESIGN.md section 4 C08"),
 }
 PENDING_REASON = "check not built yet in this round; design in DESIGN.md section 4 (no technique switch planned)"
 
